@@ -70,7 +70,7 @@ func (u *universe) Check(imp string) (*types.Package, *types.Info, []*ast.File, 
 	}
 	info := &types.Info{Uses: map[*ast.Ident]types.Object{}, Defs: map[*ast.Ident]types.Object{}, Selections: map[*ast.SelectorExpr]*types.Selection{}, Types: map[ast.Expr]types.TypeAndValue{}}
 	var errs []string
-	conf := types.Config{Importer: u, Error: func(err error) { errs = append(errs, err.Error()) }}
+	conf := types.Config{Importer: u, FakeImportC: true, Error: func(err error) { errs = append(errs, err.Error()) }}
 	path := mp.Path
 	if path == "" {
 		path = imp
